@@ -32,25 +32,28 @@ package parser
 // ---------------------------------------------------------------------------
 // expressions: the tree is flattened to postfix order by appending to *expr.
 // Every method only appends (the prefix of *expr is kept) and every appended
-// element is a well-formed operation.
+// element is a non-nil operation with a valid operator code. A Value whose term
+// could not be converted is appended with a nil term (ToExpr has no error result);
+// checkExpression, called by Rule.ToBiscuit and CheckQuery.ToBiscuit on every
+// flattened expression, turns that into an error.
 
 //@ func (e *Expression) ToExpr(expr *biscuit.Expression, parameters ParametersMap)
 //@ serves C10 C14
 //@ requires e != nil && expr != nil
 //@ assumes e.Left != nil && (forall j int :: { e.Right[j] } 0 <= j && j < len(e.Right) ==> e.Right[j] != nil)
 //@ modifies *expr, spare(*expr)
-//@ loop 0 invariant len(*expr) >= old(len(*expr)) && ((arr(*expr) == old(arr(*expr)) && off(*expr) == old(off(*expr)) && cap(*expr) == old(cap(*expr))) || fresh(arr(*expr))) && (forall k int :: { (*expr)[k] } 0 <= k && k < old(len(*expr)) ==> (*expr)[k] == old((*expr)[k])) && (forall k int :: { (*expr)[k] } old(len(*expr)) <= k && k < len(*expr) ==> bOpWF((*expr)[k]))
+//@ loop 0 invariant len(*expr) >= old(len(*expr)) && ((arr(*expr) == old(arr(*expr)) && off(*expr) == old(off(*expr)) && cap(*expr) == old(cap(*expr))) || fresh(arr(*expr))) && (forall k int :: { (*expr)[k] } 0 <= k && k < old(len(*expr)) ==> (*expr)[k] == old((*expr)[k])) && (forall k int :: { (*expr)[k] } old(len(*expr)) <= k && k < len(*expr) ==> pOpShape((*expr)[k]))
 //@ ensures appends_only: len(*expr) >= old(len(*expr)) && ((arr(*expr) == old(arr(*expr)) && off(*expr) == old(off(*expr)) && cap(*expr) == old(cap(*expr))) || fresh(arr(*expr))) && (forall k int :: { (*expr)[k] } 0 <= k && k < old(len(*expr)) ==> (*expr)[k] == old((*expr)[k]))
-//@ ensures appended_ops_wf: forall k int :: { (*expr)[k] } old(len(*expr)) <= k && k < len(*expr) ==> bOpWF((*expr)[k])
+//@ ensures appended_ops_wf: forall k int :: { (*expr)[k] } old(len(*expr)) <= k && k < len(*expr) ==> pOpShape((*expr)[k])
 
 //@ func (e *Expr1) ToExpr(expr *biscuit.Expression, parameters ParametersMap)
 //@ serves C10 C14
 //@ requires e != nil && expr != nil
 //@ assumes e.Left != nil && (forall j int :: { e.Right[j] } 0 <= j && j < len(e.Right) ==> e.Right[j] != nil)
 //@ modifies *expr, spare(*expr)
-//@ loop 0 invariant len(*expr) >= old(len(*expr)) && ((arr(*expr) == old(arr(*expr)) && off(*expr) == old(off(*expr)) && cap(*expr) == old(cap(*expr))) || fresh(arr(*expr))) && (forall k int :: { (*expr)[k] } 0 <= k && k < old(len(*expr)) ==> (*expr)[k] == old((*expr)[k])) && (forall k int :: { (*expr)[k] } old(len(*expr)) <= k && k < len(*expr) ==> bOpWF((*expr)[k]))
+//@ loop 0 invariant len(*expr) >= old(len(*expr)) && ((arr(*expr) == old(arr(*expr)) && off(*expr) == old(off(*expr)) && cap(*expr) == old(cap(*expr))) || fresh(arr(*expr))) && (forall k int :: { (*expr)[k] } 0 <= k && k < old(len(*expr)) ==> (*expr)[k] == old((*expr)[k])) && (forall k int :: { (*expr)[k] } old(len(*expr)) <= k && k < len(*expr) ==> pOpShape((*expr)[k]))
 //@ ensures appends_only: len(*expr) >= old(len(*expr)) && ((arr(*expr) == old(arr(*expr)) && off(*expr) == old(off(*expr)) && cap(*expr) == old(cap(*expr))) || fresh(arr(*expr))) && (forall k int :: { (*expr)[k] } 0 <= k && k < old(len(*expr)) ==> (*expr)[k] == old((*expr)[k]))
-//@ ensures appended_ops_wf: forall k int :: { (*expr)[k] } old(len(*expr)) <= k && k < len(*expr) ==> bOpWF((*expr)[k])
+//@ ensures appended_ops_wf: forall k int :: { (*expr)[k] } old(len(*expr)) <= k && k < len(*expr) ==> pOpShape((*expr)[k])
 
 //@ func (e *Expr2) ToExpr(expr *biscuit.Expression, parameters ParametersMap)
 //@ serves C10 C14
@@ -58,25 +61,25 @@ package parser
 //@ assumes e.Left != nil
 //@ modifies *expr, spare(*expr)
 //@ ensures appends_only: len(*expr) >= old(len(*expr)) && ((arr(*expr) == old(arr(*expr)) && off(*expr) == old(off(*expr)) && cap(*expr) == old(cap(*expr))) || fresh(arr(*expr))) && (forall k int :: { (*expr)[k] } 0 <= k && k < old(len(*expr)) ==> (*expr)[k] == old((*expr)[k]))
-//@ ensures appended_ops_wf: forall k int :: { (*expr)[k] } old(len(*expr)) <= k && k < len(*expr) ==> bOpWF((*expr)[k])
+//@ ensures appended_ops_wf: forall k int :: { (*expr)[k] } old(len(*expr)) <= k && k < len(*expr) ==> pOpShape((*expr)[k])
 
 //@ func (e *Expr3) ToExpr(expr *biscuit.Expression, parameters ParametersMap)
 //@ serves C10 C14
 //@ requires e != nil && expr != nil
 //@ assumes e.Left != nil && (forall j int :: { e.Right[j] } 0 <= j && j < len(e.Right) ==> e.Right[j] != nil)
 //@ modifies *expr, spare(*expr)
-//@ loop 0 invariant len(*expr) >= old(len(*expr)) && ((arr(*expr) == old(arr(*expr)) && off(*expr) == old(off(*expr)) && cap(*expr) == old(cap(*expr))) || fresh(arr(*expr))) && (forall k int :: { (*expr)[k] } 0 <= k && k < old(len(*expr)) ==> (*expr)[k] == old((*expr)[k])) && (forall k int :: { (*expr)[k] } old(len(*expr)) <= k && k < len(*expr) ==> bOpWF((*expr)[k]))
+//@ loop 0 invariant len(*expr) >= old(len(*expr)) && ((arr(*expr) == old(arr(*expr)) && off(*expr) == old(off(*expr)) && cap(*expr) == old(cap(*expr))) || fresh(arr(*expr))) && (forall k int :: { (*expr)[k] } 0 <= k && k < old(len(*expr)) ==> (*expr)[k] == old((*expr)[k])) && (forall k int :: { (*expr)[k] } old(len(*expr)) <= k && k < len(*expr) ==> pOpShape((*expr)[k]))
 //@ ensures appends_only: len(*expr) >= old(len(*expr)) && ((arr(*expr) == old(arr(*expr)) && off(*expr) == old(off(*expr)) && cap(*expr) == old(cap(*expr))) || fresh(arr(*expr))) && (forall k int :: { (*expr)[k] } 0 <= k && k < old(len(*expr)) ==> (*expr)[k] == old((*expr)[k]))
-//@ ensures appended_ops_wf: forall k int :: { (*expr)[k] } old(len(*expr)) <= k && k < len(*expr) ==> bOpWF((*expr)[k])
+//@ ensures appended_ops_wf: forall k int :: { (*expr)[k] } old(len(*expr)) <= k && k < len(*expr) ==> pOpShape((*expr)[k])
 
 //@ func (e *Expr4) ToExpr(expr *biscuit.Expression, parameters ParametersMap)
 //@ serves C10 C14
 //@ requires e != nil && expr != nil
 //@ assumes e.Left != nil && (forall j int :: { e.Right[j] } 0 <= j && j < len(e.Right) ==> e.Right[j] != nil)
 //@ modifies *expr, spare(*expr)
-//@ loop 0 invariant len(*expr) >= old(len(*expr)) && ((arr(*expr) == old(arr(*expr)) && off(*expr) == old(off(*expr)) && cap(*expr) == old(cap(*expr))) || fresh(arr(*expr))) && (forall k int :: { (*expr)[k] } 0 <= k && k < old(len(*expr)) ==> (*expr)[k] == old((*expr)[k])) && (forall k int :: { (*expr)[k] } old(len(*expr)) <= k && k < len(*expr) ==> bOpWF((*expr)[k]))
+//@ loop 0 invariant len(*expr) >= old(len(*expr)) && ((arr(*expr) == old(arr(*expr)) && off(*expr) == old(off(*expr)) && cap(*expr) == old(cap(*expr))) || fresh(arr(*expr))) && (forall k int :: { (*expr)[k] } 0 <= k && k < old(len(*expr)) ==> (*expr)[k] == old((*expr)[k])) && (forall k int :: { (*expr)[k] } old(len(*expr)) <= k && k < len(*expr) ==> pOpShape((*expr)[k]))
 //@ ensures appends_only: len(*expr) >= old(len(*expr)) && ((arr(*expr) == old(arr(*expr)) && off(*expr) == old(off(*expr)) && cap(*expr) == old(cap(*expr))) || fresh(arr(*expr))) && (forall k int :: { (*expr)[k] } 0 <= k && k < old(len(*expr)) ==> (*expr)[k] == old((*expr)[k]))
-//@ ensures appended_ops_wf: forall k int :: { (*expr)[k] } old(len(*expr)) <= k && k < len(*expr) ==> bOpWF((*expr)[k])
+//@ ensures appended_ops_wf: forall k int :: { (*expr)[k] } old(len(*expr)) <= k && k < len(*expr) ==> pOpShape((*expr)[k])
 
 //@ func (e *Expr5) ToExpr(expr *biscuit.Expression, parameters ParametersMap)
 //@ serves C10 C14
@@ -84,7 +87,7 @@ package parser
 //@ assumes e.Expr6 != nil
 //@ modifies *expr, spare(*expr)
 //@ ensures appends_only: len(*expr) >= old(len(*expr)) && ((arr(*expr) == old(arr(*expr)) && off(*expr) == old(off(*expr)) && cap(*expr) == old(cap(*expr))) || fresh(arr(*expr))) && (forall k int :: { (*expr)[k] } 0 <= k && k < old(len(*expr)) ==> (*expr)[k] == old((*expr)[k]))
-//@ ensures appended_ops_wf: forall k int :: { (*expr)[k] } old(len(*expr)) <= k && k < len(*expr) ==> bOpWF((*expr)[k])
+//@ ensures appended_ops_wf: forall k int :: { (*expr)[k] } old(len(*expr)) <= k && k < len(*expr) ==> pOpShape((*expr)[k])
 //@ ensures negation_last: e.Operator != nil ==> len(*expr) > old(len(*expr)) && (*expr)[len(*expr)-1] is biscuit.UnaryOp && (*expr)[len(*expr)-1].(biscuit.UnaryOp) == biscuit.UnaryNegate
 
 //@ func (e *Expr6) ToExpr(expr *biscuit.Expression, parameters ParametersMap)
@@ -92,16 +95,16 @@ package parser
 //@ requires e != nil && expr != nil
 //@ assumes e.Left != nil && (forall j int :: { e.Right[j] } 0 <= j && j < len(e.Right) ==> e.Right[j] != nil)
 //@ modifies *expr, spare(*expr)
-//@ loop 0 invariant len(*expr) >= old(len(*expr)) && ((arr(*expr) == old(arr(*expr)) && off(*expr) == old(off(*expr)) && cap(*expr) == old(cap(*expr))) || fresh(arr(*expr))) && (forall k int :: { (*expr)[k] } 0 <= k && k < old(len(*expr)) ==> (*expr)[k] == old((*expr)[k])) && (forall k int :: { (*expr)[k] } old(len(*expr)) <= k && k < len(*expr) ==> bOpWF((*expr)[k]))
+//@ loop 0 invariant len(*expr) >= old(len(*expr)) && ((arr(*expr) == old(arr(*expr)) && off(*expr) == old(off(*expr)) && cap(*expr) == old(cap(*expr))) || fresh(arr(*expr))) && (forall k int :: { (*expr)[k] } 0 <= k && k < old(len(*expr)) ==> (*expr)[k] == old((*expr)[k])) && (forall k int :: { (*expr)[k] } old(len(*expr)) <= k && k < len(*expr) ==> pOpShape((*expr)[k]))
 //@ ensures appends_only: len(*expr) >= old(len(*expr)) && ((arr(*expr) == old(arr(*expr)) && off(*expr) == old(off(*expr)) && cap(*expr) == old(cap(*expr))) || fresh(arr(*expr))) && (forall k int :: { (*expr)[k] } 0 <= k && k < old(len(*expr)) ==> (*expr)[k] == old((*expr)[k]))
-//@ ensures appended_ops_wf: forall k int :: { (*expr)[k] } old(len(*expr)) <= k && k < len(*expr) ==> bOpWF((*expr)[k])
+//@ ensures appended_ops_wf: forall k int :: { (*expr)[k] } old(len(*expr)) <= k && k < len(*expr) ==> pOpShape((*expr)[k])
 
 //@ func (e *ExprTerm) ToExpr(expr *biscuit.Expression, parameters ParametersMap)
 //@ serves C10 C14
 //@ requires e != nil && expr != nil
 //@ modifies *expr, spare(*expr)
 //@ ensures appends_only: len(*expr) >= old(len(*expr)) && ((arr(*expr) == old(arr(*expr)) && off(*expr) == old(off(*expr)) && cap(*expr) == old(cap(*expr))) || fresh(arr(*expr))) && (forall k int :: { (*expr)[k] } 0 <= k && k < old(len(*expr)) ==> (*expr)[k] == old((*expr)[k]))
-//@ ensures appended_ops_wf: forall k int :: { (*expr)[k] } old(len(*expr)) <= k && k < len(*expr) ==> bOpWF((*expr)[k])
+//@ ensures appended_ops_wf: forall k int :: { (*expr)[k] } old(len(*expr)) <= k && k < len(*expr) ==> pOpShape((*expr)[k])
 //@ ensures parens_last: e.Term == nil && e.Expression != nil ==> len(*expr) > old(len(*expr)) && (*expr)[len(*expr)-1] is biscuit.UnaryOp && (*expr)[len(*expr)-1].(biscuit.UnaryOp) == biscuit.UnaryParens
 //@ ensures value: e.Term != nil ==> len(*expr) == old(len(*expr)) + 1 && (*expr)[len(*expr)-1] is biscuit.Value
 
@@ -111,7 +114,7 @@ package parser
 //@ assumes e.Operator == OpOr && e.Expr1 != nil
 //@ modifies *expr, spare(*expr)
 //@ ensures appends_only: len(*expr) >= old(len(*expr)) && ((arr(*expr) == old(arr(*expr)) && off(*expr) == old(off(*expr)) && cap(*expr) == old(cap(*expr))) || fresh(arr(*expr))) && (forall k int :: { (*expr)[k] } 0 <= k && k < old(len(*expr)) ==> (*expr)[k] == old((*expr)[k]))
-//@ ensures appended_ops_wf: forall k int :: { (*expr)[k] } old(len(*expr)) <= k && k < len(*expr) ==> bOpWF((*expr)[k])
+//@ ensures appended_ops_wf: forall k int :: { (*expr)[k] } old(len(*expr)) <= k && k < len(*expr) ==> pOpShape((*expr)[k])
 //@ ensures operator_last: len(*expr) > old(len(*expr)) && isOpOf((*expr)[len(*expr)-1], e.Operator)
 
 //@ func (e *OpExpr2) ToExpr(expr *biscuit.Expression, parameters ParametersMap)
@@ -120,7 +123,7 @@ package parser
 //@ assumes e.Operator == OpAnd && e.Expr2 != nil
 //@ modifies *expr, spare(*expr)
 //@ ensures appends_only: len(*expr) >= old(len(*expr)) && ((arr(*expr) == old(arr(*expr)) && off(*expr) == old(off(*expr)) && cap(*expr) == old(cap(*expr))) || fresh(arr(*expr))) && (forall k int :: { (*expr)[k] } 0 <= k && k < old(len(*expr)) ==> (*expr)[k] == old((*expr)[k]))
-//@ ensures appended_ops_wf: forall k int :: { (*expr)[k] } old(len(*expr)) <= k && k < len(*expr) ==> bOpWF((*expr)[k])
+//@ ensures appended_ops_wf: forall k int :: { (*expr)[k] } old(len(*expr)) <= k && k < len(*expr) ==> pOpShape((*expr)[k])
 //@ ensures operator_last: len(*expr) > old(len(*expr)) && isOpOf((*expr)[len(*expr)-1], e.Operator)
 
 //@ func (e *OpExpr3) ToExpr(expr *biscuit.Expression, parameters ParametersMap)
@@ -129,7 +132,7 @@ package parser
 //@ assumes opLevel3(e.Operator) && e.Expr3 != nil
 //@ modifies *expr, spare(*expr)
 //@ ensures appends_only: len(*expr) >= old(len(*expr)) && ((arr(*expr) == old(arr(*expr)) && off(*expr) == old(off(*expr)) && cap(*expr) == old(cap(*expr))) || fresh(arr(*expr))) && (forall k int :: { (*expr)[k] } 0 <= k && k < old(len(*expr)) ==> (*expr)[k] == old((*expr)[k]))
-//@ ensures appended_ops_wf: forall k int :: { (*expr)[k] } old(len(*expr)) <= k && k < len(*expr) ==> bOpWF((*expr)[k])
+//@ ensures appended_ops_wf: forall k int :: { (*expr)[k] } old(len(*expr)) <= k && k < len(*expr) ==> pOpShape((*expr)[k])
 //@ ensures operator_last: len(*expr) > old(len(*expr)) && isOpOf((*expr)[len(*expr)-1], e.Operator)
 
 //@ func (e *OpExpr4) ToExpr(expr *biscuit.Expression, parameters ParametersMap)
@@ -138,7 +141,7 @@ package parser
 //@ assumes (e.Operator == OpAdd || e.Operator == OpSub) && e.Expr4 != nil
 //@ modifies *expr, spare(*expr)
 //@ ensures appends_only: len(*expr) >= old(len(*expr)) && ((arr(*expr) == old(arr(*expr)) && off(*expr) == old(off(*expr)) && cap(*expr) == old(cap(*expr))) || fresh(arr(*expr))) && (forall k int :: { (*expr)[k] } 0 <= k && k < old(len(*expr)) ==> (*expr)[k] == old((*expr)[k]))
-//@ ensures appended_ops_wf: forall k int :: { (*expr)[k] } old(len(*expr)) <= k && k < len(*expr) ==> bOpWF((*expr)[k])
+//@ ensures appended_ops_wf: forall k int :: { (*expr)[k] } old(len(*expr)) <= k && k < len(*expr) ==> pOpShape((*expr)[k])
 //@ ensures operator_last: len(*expr) > old(len(*expr)) && isOpOf((*expr)[len(*expr)-1], e.Operator)
 
 //@ func (e *OpExpr5) ToExpr(expr *biscuit.Expression, parameters ParametersMap)
@@ -147,7 +150,7 @@ package parser
 //@ assumes (e.Operator == OpMul || e.Operator == OpDiv) && e.Expr5 != nil
 //@ modifies *expr, spare(*expr)
 //@ ensures appends_only: len(*expr) >= old(len(*expr)) && ((arr(*expr) == old(arr(*expr)) && off(*expr) == old(off(*expr)) && cap(*expr) == old(cap(*expr))) || fresh(arr(*expr))) && (forall k int :: { (*expr)[k] } 0 <= k && k < old(len(*expr)) ==> (*expr)[k] == old((*expr)[k]))
-//@ ensures appended_ops_wf: forall k int :: { (*expr)[k] } old(len(*expr)) <= k && k < len(*expr) ==> bOpWF((*expr)[k])
+//@ ensures appended_ops_wf: forall k int :: { (*expr)[k] } old(len(*expr)) <= k && k < len(*expr) ==> pOpShape((*expr)[k])
 //@ ensures operator_last: len(*expr) > old(len(*expr)) && isOpOf((*expr)[len(*expr)-1], e.Operator)
 
 //@ func (e *OpExpr7) ToExpr(expr *biscuit.Expression, parameters ParametersMap)
@@ -156,9 +159,65 @@ package parser
 //@ assumes opLevel7(e.Operator)
 //@ modifies *expr, spare(*expr)
 //@ ensures appends_only: len(*expr) >= old(len(*expr)) && ((arr(*expr) == old(arr(*expr)) && off(*expr) == old(off(*expr)) && cap(*expr) == old(cap(*expr))) || fresh(arr(*expr))) && (forall k int :: { (*expr)[k] } 0 <= k && k < old(len(*expr)) ==> (*expr)[k] == old((*expr)[k]))
-//@ ensures appended_ops_wf: forall k int :: { (*expr)[k] } old(len(*expr)) <= k && k < len(*expr) ==> bOpWF((*expr)[k])
+//@ ensures appended_ops_wf: forall k int :: { (*expr)[k] } old(len(*expr)) <= k && k < len(*expr) ==> pOpShape((*expr)[k])
 //@ ensures operator_last: len(*expr) > old(len(*expr)) && isOpOf((*expr)[len(*expr)-1], e.Operator)
 
 // (*Operator).ToExpr has no contract of its own: it is called on a field of the
 // node (an interior pointer) and is inlined at each of its six call sites, where
 // the operator table isOpOf is proved for the operators that level can capture.
+
+//@ func checkExpression(expr biscuit.Expression) (err error)
+//@ serves C10 C14
+//@ modifies nothing
+//@ loop 0 invariant forall k int :: { expr[k] } 0 <= k && k < #i ==> (expr[k] is biscuit.Value ==> expr[k].(biscuit.Value).Term != nil)
+//@ ensures no_missing_terms: err == nil ==> (forall k int :: { expr[k] } 0 <= k && k < len(expr) ==> (expr[k] is biscuit.Value ==> expr[k].(biscuit.Value).Term != nil))
+
+// ---------------------------------------------------------------------------
+// predicates, rules, checks, policies, blocks
+
+//@ func (p *Predicate) ToBiscuit(parameters ParametersMap) (res *biscuit.Predicate, err error)
+//@ serves C10 C14
+//@ requires p != nil
+//@ assumes p.Name != nil && (forall j int :: { p.IDs[j] } 0 <= j && j < len(p.IDs) ==> p.IDs[j] != nil)
+//@ modifies nothing
+//@ loop 0 invariant len(terms) == #i && cap(terms) == len(p.IDs) && fresh(arr(terms)) && off(terms) == 0 && pTermsNonNil(terms)
+//@ ensures value_or_error: (err == nil) == (res != nil)
+//@ ensures denotes: err == nil ==> fresh(res) && res.Name == *p.Name && len(res.IDs) == len(p.IDs) && pTermsNonNil(res.IDs)
+
+//@ func (r *Rule) ToBiscuit(parameters ParametersMap) (res *biscuit.Rule, err error)
+//@ serves C10 C14
+//@ requires r != nil
+//@ assumes r.Head != nil && astElemsOK(r.Body)
+//@ modifies nothing
+//@ loop 0 invariant (cap(body) == 0 || fresh(arr(body))) && pPredsWF(body) && (cap(expressions) == 0 || fresh(arr(expressions))) && pExprsWF(expressions)
+//@ ensures value_or_error: (err == nil) == (res != nil)
+//@ ensures wf: err == nil ==> fresh(res) && pRuleWF(*res)
+
+//@ func (r *CheckQuery) ToBiscuit(parameters ParametersMap) (res *biscuit.Rule, err error)
+//@ serves C10 C14
+//@ requires r != nil
+//@ assumes astElemsOK(r.Body)
+//@ modifies nothing
+//@ loop 0 invariant (cap(body) == 0 || fresh(arr(body))) && pPredsWF(body) && (cap(expressions) == 0 || fresh(arr(expressions))) && pExprsWF(expressions)
+//@ ensures value_or_error: (err == nil) == (res != nil)
+//@ ensures wf: err == nil ==> fresh(res) && pRuleWF(*res) && res.Head.Name == "query" && len(res.Head.IDs) == 0
+
+//@ func (c *Check) ToBiscuit(parameters ParametersMap) (res *biscuit.Check, err error)
+//@ serves C10 C14
+//@ requires c != nil
+//@ assumes astQueriesOK(c.Queries)
+//@ modifies nothing
+//@ loop 0 invariant len(queries) == #i && cap(queries) == len(c.Queries) && fresh(arr(queries)) && off(queries) == 0 && pRulesWF(queries)
+//@ ensures value_or_error: (err == nil) == (res != nil)
+//@ ensures or_as_alternatives: err == nil ==> fresh(res) && len(res.Queries) == len(c.Queries) && pRulesWF(res.Queries)
+
+//@ func (p *Policy) ToBiscuit(parameters ParametersMap) (res *biscuit.Policy, err error)
+//@ serves C10 C14
+//@ requires p != nil
+//@ assumes (p.Allow != nil ==> astQueriesOK(p.Allow.Queries)) && (p.Deny != nil ==> astQueriesOK(p.Deny.Queries))
+//@ modifies nothing
+//@ loop 0 invariant len(queries) == #i && cap(queries) == len(parsedQueries) && fresh(arr(queries)) && off(queries) == 0 && pRulesWF(queries)
+//@ ensures value_or_error: (err == nil) == (res != nil)
+//@ ensures allow: err == nil && p.Allow != nil ==> res.Kind == biscuit.PolicyKindAllow && len(res.Queries) == len(p.Allow.Queries)
+//@ ensures deny: err == nil && p.Allow == nil && p.Deny != nil ==> res.Kind == biscuit.PolicyKindDeny && len(res.Queries) == len(p.Deny.Queries)
+//@ ensures wf: err == nil ==> fresh(res) && pRulesWF(res.Queries)
